@@ -553,6 +553,14 @@ def filters_eval(pm: ProgramModel, ctx: Ctx, fmc: Any) -> None:
         mb.relation(two, kids, d.min, d.max)
         for k in kids:
             owner[id(k)] = d
+    twins = mb.feature("Twins")              # a parent with two groups of each kind: it is listed once per listing
+    mb.relation(root, [twins], 0, 1)
+    owner[id(twins)] = D(0, 1, 1)
+    for j, d in enumerate((D(1, 1, 2), D(1, 1, 3), D(1, 2, 2), D(1, 3, 3), D(0, 1, 2), D(0, 1, 2), D(2, 2, 3), D(2, 2, 3))):
+        kids = [mb.feature(f"tw{j}c{k}") for k in range(d.n)]
+        mb.relation(twins, kids, d.min, d.max)
+        for k in kids:
+            owner[id(k)] = d
     for k, v in ft.items():
         f = mb.feature(f"T{k}", ftype=EnumVal("FeatureType", k, v))
         mb.relation(root, [f], 0, 1)
